@@ -176,9 +176,13 @@ class StmtMixin:
         self.stats['loops'] += 1
         spec = self.cur.get('spec')
         lines = []
-        if spec and k in spec['loops']:
+        has = bool(spec and k in spec['loops'])
+        self.cur['loop_marker'] = f' /*@L:{self.cur["name"]}:{k}:{"C" if has else "N"}*/'
+        if has:
             lines = [ind + l.strip() for l in spec['loops'][k] if l.strip()]
             self.cur['loops_with_contract'].append(k)
+        ghost = spec.get('loopbody', {}).get(k, []) if spec else []
+        self.cur['loop_open'] = [ind + '{'] + [ind + '  ' + l.strip() + ' /* ghost */' for l in ghost if l.strip()]
         return lines
 
     def cond_in_loop(self, cond, ind):
@@ -192,14 +196,18 @@ class StmtMixin:
         cond, bodyn = n['inner'][-2], n['inner'][-1]
         c = self.cond_in_loop(cond, ind)
         lc = self.loop_contract(ind)
-        return [f'{ind}while ({c})'] + lc + [ind + '{'] + self.block(bodyn, ind + '  ') + [ind + '}']
+        mk = self.cur['loop_marker']
+        op = self.cur['loop_open']
+        return [f'{ind}while ({c}){mk}'] + lc + op + self.block(bodyn, ind + '  ') + [ind + '}']
 
     def s_DoStmt(self, n, ind):
         bodyn, cond = n['inner']
         lc = self.loop_contract(ind)
+        mk = self.cur['loop_marker']
+        op = self.cur['loop_open']
         b = self.block(bodyn, ind + '  ')
         c = self.cond_in_loop(cond, ind)
-        return [f'{ind}do'] + lc + [ind + '{'] + b + [f'{ind}}} while ({c});']
+        return [f'{ind}do{mk}'] + lc + op + b + [f'{ind}}} while ({c});{mk}']
 
     def s_ForStmt(self, n, ind):
         init, condvar, cond, inc, bodyn = n['inner']
@@ -214,9 +222,9 @@ class StmtMixin:
             if self.pre:
                 raise LoweringError(f'for-increment needs temporaries in {self.cur["name"]}')
         lc = self.loop_contract(i2)
-        out.append(f'{i2}for (; {c}; {incs})')
+        out.append(f'{i2}for (; {c}; {incs}){self.cur["loop_marker"]}')
         out += lc
-        out.append(i2 + '{')
+        out += self.cur['loop_open']
         out += self.block(bodyn, i2 + '  ')
         out.append(i2 + '}')
         out.append(ind + '}')
@@ -265,9 +273,9 @@ class StmtMixin:
             raise LoweringError(f'range-for over {rt!r}')
         out.append(f'{i2}uint64_t {idx} = 0;')
         lc = self.loop_contract(i2)
-        out.append(f'{i2}for (; {idx} < {size}; ++{idx})')
+        out.append(f'{i2}for (; {idx} < {size}; ++{idx}){self.cur["loop_marker"]}')
         out += lc
-        out.append(i2 + '{')
+        out += self.cur['loop_open']
         i3 = i2 + '  '
         lt = self.tyof(loopvar)
         if loopvar.get('kind') == 'DecompositionDecl':
@@ -536,7 +544,7 @@ class StmtMixin:
         const = 'const ' if (node.get('constexpr') or t.const) else ''
         if inits:
             val = None
-            if t.kind == 'prim' or self.family(t) in ('duration', 'enum'):
+            if t.kind == 'prim' or self.family(t) == 'enum':
                 val = self.consteval(inits[0])
             if val is not None:
                 s = str(val)
